@@ -174,6 +174,9 @@ func Choose(name string, n int) int {
 // Time is an arbitrary instant (nanoseconds since the Unix epoch, |ns| < 2^62).
 func Time(name string) time.Time { return time.Unix(0, intIn(name)).UTC() }
 
+// TimeWide is an arbitrary instant whose UnixNano is representable (the engine's Time stays within +-2^62 ns).
+func TimeWide(name string) time.Time { return time.Unix(0, intIn(name)).UTC() }
+
 // Dur is an arbitrary duration.
 func Dur(name string) time.Duration { return time.Duration(intIn(name)) }
 
